@@ -163,11 +163,12 @@ let handle (cmd : string) (args : t list) : t option =
       let a = { va_files = List.map (fun s0 -> s0.s_name) srcs; va_nostdin = bool_of_sym nostdin; va_noise = noise_of noise } in
       Some (run_s (val_main (nat_atom estr) a (bool_of_sym tty) srcs (source_of stdin_src)))
     | "cli-merge", [estr; L [A "args"; nostdin; noise; config; config_ok; output; output_exists; overwrite; overwrite_exists;
-                             backup; fmt; mode; ext]; tty; srcs; stdin_src; m2; fl; jv] ->
+                             backup; fmt; mode; ext; cfgerr]; tty; srcs; stdin_src; m2; fl; jv] ->
       let a = { ma_nostdin = bool_of_sym nostdin; ma_noise = noise_of noise; ma_config = bool_of_sym config;
                 ma_config_ok = bool_of_sym config_ok; ma_output = str_atom output; ma_output_exists = bool_of_sym output_exists;
                 ma_overwrite = str_atom overwrite; ma_overwrite_exists = bool_of_sym overwrite_exists;
-                ma_backup = bool_of_sym backup; ma_format = docfmt_of fmt; ma_mode = mode_of mode; ma_out_ext = str_atom ext } in
+                ma_backup = bool_of_sym backup; ma_format = docfmt_of fmt; ma_mode = mode_of mode; ma_out_ext = str_atom ext;
+                ma_config_err = opt_of str_atom cfgerr } in
       let merge2 = table2 "merge2" (function L [e; d] -> (opt_of ufam_of e, nat_atom d) | x -> failwith ("bad merge2 " ^ to_string x)) m2 in
       let flow = table1 "flow" bool_of_sym fl in
       let jview = table1 "jview" nat_atom jv in
